@@ -1,5 +1,168 @@
-import MlModel.Model.Queue
+import MlModel.Lemmas.QueueFault
+import MlModel.Properties.C04
+/-!
+# C05 — failures and stop requests propagate through queues (safety part)
+
+The LTS of `Model/Queue.lean` contains the three fault events of the property: a producer's
+source raises at any position (`Item.fail`), a `stopper` thread calls `maybe_stop(exc?)` at any
+point of any schedule, and — when a timeout is configured — every parked wait may expire (the
+`alt = true` scheduler choice).  All statements hold in every reachable configuration / for
+every step, for all thread counts, capacities and schedules.
+
+The no-hang half (every blocked thread is eventually released; termination) is in
+`Properties/C04Live.lean` / `C05Live.lean`.
+-/
 namespace MlModel.C05
 open MlModel.Queue
-theorem C05_placeholder : (init 0 1 false false []).allDone = true := by decide
+
+variable {cap maxEnq : Nat} {to ig : Bool} {progs : List Prog} {c c' : Cfg}
+
+/-- A recorded failure, a stop request and the exhausted flag are never cleared again. -/
+theorem C05_sticky (h : Reachable c c') :
+    (c.sh.exc.isSome = true → c'.sh.exc.isSome = true) ∧
+    (c.sh.stopRequested = true → c'.sh.stopRequested = true) ∧
+    (c.sh.exhausted = true → c'.sh.exhausted = true) := by
+  induction h with
+  | init => exact ⟨id, id, id⟩
+  | step _ hs ih =>
+    obtain ⟨t, s', t', _, hst, rfl⟩ := step_inv hs
+    obtain ⟨h1, h2, h3, _, _⟩ := stepThread_fault _ s' t' hst
+    exact ⟨fun h => h1 (ih.1 h), fun h => h2 (ih.2.1 h), fun h => h3 (ih.2.2 h)⟩
+
+/-- **Consumers observe the failure, never a clean end-of-stream**: from the moment an exception
+is recorded (a producer's iterator raised, a `put` timed out, or `maybe_stop(exc)` was called),
+no step of any thread arms `StopIteration` as the end of a `get`/`get_batch` call — whatever is
+armed is the recorded exception (or a `TimeoutError` of an expired wait). -/
+theorem C05_error_observed {tid : Tid} {alt : Bool} {lbl : String} {t t' : Thread}
+    (hs : step c tid alt = some (lbl, c')) (hexc : c.sh.exc.isSome = true)
+    (ht : c.ths[tid]? = some t) (ht' : c'.ths[tid]? = some t') (hx : t'.x ≠ t.x) :
+    (∃ e, t'.x = .err e) ∧ ∀ r, t'.x ≠ .stop r := by
+  obtain ⟨t0, s', t1, ht0, hst, rfl⟩ := step_inv hs
+  rw [ht] at ht0
+  obtain rfl := Option.some.inj ht0
+  have htid : tid < c.ths.length := by
+    rcases List.getElem?_eq_some_iff.mp ht with ⟨h1, _⟩; exact h1
+  simp only [List.getElem?_set_self htid, Option.some.injEq] at ht'
+  subst ht'
+  obtain ⟨h1, _, _, hxs, _⟩ := stepThread_fault _ s' t1 hst
+  have hfin : ∃ e, s'.final = .err e := by
+    have := h1 hexc
+    unfold Shared.final
+    cases he : s'.exc with
+    | none => simp [he] at this
+    | some e => exact ⟨e, rfl⟩
+  rcases hxs with h | h | h | ⟨_, h⟩
+  · exact absurd h hx
+  · -- `Empty` is internal to the queue: the caller waits and retries
+    -- (it cannot be newly armed while an exception is recorded: `enqueue_done` holds)
+    have : False := by
+      have hd : c.sh.enqueueDone = true := by
+        unfold Shared.enqueueDone; simp [hexc]
+      clear hfin h1
+      obtain ⟨e0, he0⟩ : ∃ e, c.sh.exc = some e := Option.isSome_iff_exists.mp hexc
+      unfold stepThread at hst
+      cases hpc : t.pc <;> simp only [hpc] at hst <;>
+        (try simp only [acquire, release, notify, waitPark, waitWake, goto, enqLoop, putLoop,
+          batchLoop, afterRaise, afterValue] at hst) <;>
+        (repeat' split at hst) <;>
+        (try simp only [Option.some.injEq, Prod.mk.injEq, reduceCtorEq] at hst) <;>
+        (try (obtain ⟨-, rfl, rfl⟩ := hst)) <;>
+        simp_all [Shared.final]
+    exact this.elim
+  · obtain ⟨e, he⟩ := hfin
+    rw [h, he]
+    exact ⟨⟨e, rfl⟩, by intro r; simp⟩
+  · rw [h]
+    exact ⟨⟨_, rfl⟩, by intro r; simp⟩
+
+/-- Already queued elements are never duplicated, also when producers fail, stop requests
+arrive or waits time out: the conservation equation of C04 holds in every reachable
+configuration of the LTS with faults. -/
+theorem C05_no_duplication (h : Reachable (init cap maxEnq to ig progs) c) :
+    c.sh.produced.Perm (c.sh.q ++ sumSeq c.ths ++ c.sh.lost) :=
+  MlModel.C04.C04_exactly_once h
+
+/-- With a timeout configured, a consumer parked in `get` whose wait can re-acquire the lock and
+has not been notified may time out, and then raises `TimeoutError` (after releasing the lock). -/
+theorem C05_timeout_get {s : Shared} {t : Thread} {tid : Tid} (hpc : t.pc = .gWake)
+    (hto : s.timeout = true) (hfree : s.deqOwner = none) (hn : tid ∉ s.deqNotified) :
+    ∃ lbl s' t', stepThread s t tid true = some (lbl, s', t') ∧
+      t'.pc = .gRaise ∧ t'.x = .err .timeout ∧ s'.deqOwner = some tid := by
+  unfold stepThread
+  simp only [hpc, waitWake, Shared.owner, hfree, hto, Shared.setOwner, Option.isSome_none,
+    Bool.false_eq_true, ↓reduceIte, List.contains_eq_mem, hn, decide_false, Bool.not_true,
+    Bool.or_false]
+  exact ⟨_, _, _, rfl, rfl, rfl, rfl⟩
+
+theorem C05_timeout_get_batch {s : Shared} {t : Thread} {tid : Tid} (hpc : t.pc = .bWake)
+    (hto : s.timeout = true) (hfree : s.deqOwner = none) (hn : tid ∉ s.deqNotified) :
+    ∃ lbl s' t', stepThread s t tid true = some (lbl, s', t') ∧
+      t'.pc = .bRaise ∧ t'.x = .err .timeout ∧ s'.deqOwner = some tid := by
+  unfold stepThread
+  simp only [hpc, waitWake, Shared.owner, hfree, hto, Shared.setOwner, Option.isSome_none,
+    Bool.false_eq_true, ↓reduceIte, List.contains_eq_mem, hn, decide_false, Bool.not_true,
+    Bool.or_false]
+  exact ⟨_, _, _, rfl, rfl, rfl, rfl⟩
+
+theorem C05_timeout_put {s : Shared} {t : Thread} {tid : Tid} (hpc : t.pc = .pWake)
+    (hto : s.timeout = true) (hfree : s.enqOwner = none) (hn : tid ∉ s.enqNotified) :
+    ∃ lbl s' t', stepThread s t tid true = some (lbl, s', t') ∧
+      t'.pc = .pRaiseT ∧ s'.enqOwner = some tid := by
+  unfold stepThread
+  simp only [hpc, waitWake, Shared.owner, hfree, hto, Shared.setOwner, Option.isSome_none,
+    Bool.false_eq_true, ↓reduceIte, List.contains_eq_mem, hn, decide_false, Bool.not_true,
+    Bool.or_false, goto]
+  exact ⟨_, _, _, rfl, rfl, rfl⟩
+
+/-- the released `put` then records the `TimeoutError` and stops enqueueing -/
+theorem C05_timeout_put_raises {s : Shared} {t : Thread} {tid : Tid} (hpc : t.pc = .pRaiseT)
+    (hown : s.enqOwner = some tid) (hig : s.ignoreError = false) :
+    ∃ lbl s' t', stepThread s t tid false = some (lbl, s', t') ∧
+      s'.exc = some .timeout ∧ t'.pc = .tAcq ∧ t'.reraise = some .timeout := by
+  unfold stepThread
+  simp only [hpc, release, Shared.owner, hown, Shared.setOwner, Bool.false_eq_true, ↓reduceIte,
+    BEq.rfl, hig]
+  exact ⟨_, _, _, rfl, rfl, rfl, rfl⟩
+
+/-- **A stop request wakes every parked producer and consumer**: `maybe_stop`'s two `notify_all`
+steps move every thread parked on the enqueue condition, resp. the dequeue condition, to the
+notified set (so its wake-up is enabled as soon as the lock is free). -/
+theorem C05_stop_unblocks_producers {s : Shared} {t : Thread} {tid : Tid} {lbl : String}
+    {s' : Shared} {t' : Thread} (hpc : t.pc = .mE1)
+    (h : stepThread s t tid false = some (lbl, s', t')) :
+    s'.enqWait = [] ∧ s'.enqNotified = s.enqNotified ++ s.enqWait := by
+  unfold stepThread at h
+  simp only [hpc, notify, goto] at h
+  split at h <;> simp_all
+  obtain ⟨-, -, rfl, -⟩ := h
+  exact ⟨rfl, rfl⟩
+
+theorem C05_stop_unblocks_consumers {s : Shared} {t : Thread} {tid : Tid} {lbl : String}
+    {s' : Shared} {t' : Thread} (hpc : t.pc = .mD1)
+    (h : stepThread s t tid false = some (lbl, s', t')) :
+    s'.deqWait = [] ∧ s'.deqNotified = s.deqNotified ++ s.deqWait := by
+  unfold stepThread at h
+  simp only [hpc, notify, goto] at h
+  split at h <;> simp_all
+  obtain ⟨-, -, rfl, -⟩ := h
+  exact ⟨rfl, rfl⟩
+
+/-- the same for the end of enqueueing (`_stop_enqueue` when `enqueue_done` became true,
+including the repaired wake-up of parked producers, finding F6) -/
+theorem C05_done_unblocks {s : Shared} {t : Thread} {tid : Tid} {lbl : String}
+    {s' : Shared} {t' : Thread} (h : stepThread s t tid false = some (lbl, s', t')) :
+    (t.pc = .tR2 → s'.deqWait = [] ∧ s'.deqNotified = s.deqNotified ++ s.deqWait) ∧
+    (t.pc = .tS2 → s'.enqWait = [] ∧ s'.enqNotified = s.enqNotified ++ s.enqWait) := by
+  constructor <;> intro hpc <;> unfold stepThread at h <;> simp only [hpc, notify, goto] at h <;>
+    split at h <;> simp_all <;> (obtain ⟨-, -, rfl, -⟩ := h; exact ⟨rfl, rfl⟩)
+
+/-! ### Non-vacuity (tests of the definitions) -/
+
+/-- a producer whose source fails at once: the failure is recorded and the consumer ends with it -/
+example : ∃ c, Reachable (init 1 1 false false [.producer [.fail] 9, .getLoop]) c ∧
+    c.sh.exc = some .value ∧ c.allDone = true ∧
+    c.ths.map (·.outcome) = [some (.err .value), some (.err .value)] :=
+  ⟨_, MlModel.C04.reachable_replay (init 1 1 false false [.producer [.fail] 9, .getLoop])
+    (([0,0,0,0, 0,0,0,0,0,0, 0,0,0,0,0, 0] ++ [1,1,1,1,1,1,1]).map (·, false)) (by decide), by decide⟩
+
 end MlModel.C05
